@@ -99,7 +99,9 @@ CHECKS.update({
              "common application (or relay) -> CEA 2001 + READY, unknown peer -> 3010 + CLOSING then closed once flushed, nothing shared -> 5010 and "
              "state unchanged; outbound connection queues its CER first; CEA other than 2001 closes; CER/CEA timeout closes; a connection becomes "
              "ready only through a good CER / CEA 2001 (direction-exact from CONNECTED).",
-             "C06_gate_connected, C06_gate_closing, C06_cer_known/unknown/no_common, C06_unknown_then_closed, C06_outbound_first_is_cer, C06_cea_rejected, C06_timeout, C06_ready_only_by_ce"),
+             "C06_gate_connected/_closing, C06_cer_known/_unknown/_no_common/_election_won/_election_lost/_ignored_unless_connected, C06_unknown_then_closed, "
+             "C06_outbound_first_is_cer, C06_cea_accepted/_rejected/_wrong_identity/_without_origin/_ignored_unless_connected, C06_timeout, "
+             "C06_ready_only_from_connected, C06_direction(_inbound/_outbound), C06_cea_never_revives"),
  "C07": node("C07", "One dispatched message yields at most one queued message, an answer on the same connection to a REQUEST with its command/app/ids; a "
              "non-request is never answered; events other than a network read or an application answer queue requests only; every dispatched request that "
              "passes the gate is answered or delivered.",
@@ -121,12 +123,16 @@ CHECKS.update({
  "C12": node("C12", "DPR -> DPA 2001, DISCONNECTING (not offered by route_request), reason recorded; reconnect_all dials exactly the peers satisfying the "
              "declarative policy (persistent, no connection, wait elapsed, not after DPR unless always-reconnect, not stopping); non-persistent "
              "peers are never dialled by any event; invariant: at most one self-initiated connection per peer in every reachable state.",
-             "C12_dpr, C12_dpr_not_routed, wants_reconnect_spec, C12_reconnect_iff, C12_never_nonpersistent, C12_dial_needs_no_connection, C12_single_outbound"),
- "C13": node("C13", "Inductive invariants over every reachable state: table consistency (connections / socket tables / half-ready / peer references), a "
-             "closed connection is in no table and stays closed, removal sets disconnect reason and time. The claim 'peer.connection references a "
-             "live connection of that peer' is REFUTED in the faithful model for two histories (second connection of the same peer; CEA carrying "
-             "another configured peer's identity) and proved under the guard excluding them: recorded known findings.",
-             "I_ids, C13_tables_subset, C13_closed_nowhere, C13_closed_stays_closed, C13_reason_set, remove_conn_sets_reason, guarded/_refuted variants"),
+             "C12_dpr, C12_dpr_not_routed, C06_cea_never_revives, wants_reconnect_spec, C12_reconnect_iff, C12_never_nonpersistent, C12_dial_needs_no_connection, C12_outbound_owned, C12_single_outbound"),
+ "C13": node("C13", "Inductive invariants over every reachable state, proved per atomic step of a decomposition of the model: connection ids unique, "
+             "socket / half-ready tables are subsets of the connections, a closed connection is in no table and stays closed, removal sets disconnect "
+             "reason and time; peer.connection references a live connection of that peer, conversely a ready connection of a peer IS its connection, "
+             "at most one established connection per peer (election), no connections => no table entries and no peer.connection. The last group holds "
+             "under two stated hypotheses (no peer named the empty string; a second CER with another Origin-Host after a 5010 on the same connection is "
+             "excluded - the property text leaves second CERs unspecified), each shown necessary by a vm_compute witness.",
+             "I_ids, C13_tables_subset, C13_closed_nowhere, C13_closed_stays_closed, C13_reason_set, remove_conn_sets_reason, C13_peer_conn_live(_strong), "
+             "C13_peer_conn_exact, C13_one_conn_per_peer, C13_no_conns_no_peer_conn, C13_election_clears_rivals, C13_ready_flag_partial/_removed, "
+             "cer_guard_syn_sufficient, *_refuted witnesses"),
  "C14": dict(engine="coq-node",
              technique="Coq proof: inductive invariant of the threading application's slot/queue transition system over every interleaving and handler outcome; correspondence of the real ThreadingApplication under vsim with the model after every event; fault histories with thread-death observation",
              text=("Props/C14.v: slots held = handlers running + responses queued in every reachable state; capacity returns; both consumers survive every "
@@ -152,9 +158,9 @@ CHECKS.update({
              "C18_dpr_to_ready, C18_quiet_while_stopping, C18_newcomers_refused, C18_all_closed, C18_close_after_dpa",
              extra="thread termination and socket closure are observed on the implementation (threads are not in the model): partial"),
  "C19": node("C19", "Bounded windows in every reachable state; per-connection and per-transaction entries leave the tables with the connection / the answer. "
-             "Implementation: 16 kinds of transaction / connection-attempt histories at N = 1, 10, 100 (1000 thorough); sizes of all containers reachable "
+             "Implementation: 18 kinds of transaction / connection-attempt histories at N = 1, 10, 100 (1000 thorough); sizes of all containers reachable "
              "from the Node (structural discovery), live threads by role and unclosed sockets must not depend on N.",
-             "C19_windows_bounded and table-release theorems of Proofs/NodeD.v",
+             "C19_windows_bounded, C19_waiting_hosts, C19_no_conns_no_waiting, C19_no_conns_no_tables, C13_closed_stays_closed, C09_removed_on_close, C10_correlation, C10_duplicate_ignored",
              extra="N-scaling comparison of retained objects and threads on the real node (threads and sockets are outside the model: partial)"),
 })
 
